@@ -4,7 +4,7 @@
 # Usage: build.sh [race]
 set -e
 export GOFLAGS=-mod=mod GOPROXY=off GOSUMDB=off GOTOOLCHAIN=local
-V=/verif
+V=$(cd "$(dirname "$0")" && pwd)
 B=$V/.build
 mkdir -p $B/bin
 exec 9>$B/lock
